@@ -479,6 +479,11 @@ func c19Post(c *Ctx) {
 		}
 		if so.key() == out.key() {
 			matched = true
+			if so.Confirms == out.Confirms {
+				// equal to one serial order in every component, the stored confirmation sets included: inside the bounds
+				c.Probe("matched_serial_order")
+				return
+			}
 		}
 		serials = append(serials, fmt.Sprintf("order %v: %s", ord, so.full()))
 	}
